@@ -557,6 +557,8 @@ def c03(ctx):
     # texts the user typed that begin like a query message (to the receiver they are one)
     ctx.random_validate("qlife", 64 if ctx.quick() else 480, 60 if ctx.quick() else 150)
     ctx.random_validate("qerrlife", 32 if ctx.quick() else 240, 60 if ctx.quick() else 150)
+    # a failing randomness source must not end in messages enciphered under keys the specification does not derive
+    ctx.random_validate("randfail", 48 if ctx.quick() else 480, 90)
 
 
 _SESSION = [dict(a="Query", p="A"), dict(a="Deliver", p="B"), dict(a="Deliver", p="A"), dict(a="Deliver", p="B"),
@@ -601,6 +603,9 @@ def c07(ctx):
     ctx.attack_catalogue("ake")
 
 
+SMPCFG = dict(DATA33, MaxFlight=2, MaxSend=0)
+
+
 def c06(ctx):
     q = ctx.quick()
     # the rejected-is-stutter property of the specification itself
@@ -615,6 +620,9 @@ def c06(ctx):
                                allpos=not q, maxsched=30 if q else 200)
     ctx.export_tamper_validate("c06-life", dict(PolA=7, PolB=3, MaxSend=1, MaxFlight=3, MaxQuery=1, MaxEnd=1), "none",
                                per_msg=6 if q else 24, maxsched=60 if q else 400)
+    # rejected copies (SMP messages ask to be ignored if unreadable) while an SMP run is in every one of its stages
+    ctx.export_tamper_validate("c06-smp", dict(SMPCFG, MaxSMPStart=1, MaxSMPAnswer=1, MaxSMPAbort=0 if q else 1, Secrets=[5]), "none",
+                               per_msg=8 if q else 24, maxsched=30 if q else 300)
 
 
 def c02(ctx):
@@ -631,6 +639,9 @@ def c02(ctx):
     ctx.export_tamper_validate("c02-rep", dict(DATA33, MaxSend=2, MaxFlight=2), "none", per_msg=4 if q else 16, maxsched=20 if q else 150, replace=True)
     # what is re-sent after an error report is the text the user gave, byte for byte
     ctx.random_validate("errlife", 32 if q else 320, 60 if q else 150)
+    # the randomness source fails in the middle of a session (a key rotation that does not happen): what is
+    # accepted, and which MAC keys become public, afterwards
+    ctx.random_validate("randfail", 48 if q else 480, 90)
     ctx.attack_catalogue("data")
 
 
@@ -744,9 +755,8 @@ def c16(ctx):
     ctx.exhaustive = ctx.exhaustive and not q
     ctx.samples.append(dict(note="policy pair x offer form runs", runs=runs))
     ctx.classify(reports)
-
-
-SMPCFG = dict(DATA33, MaxFlight=2, MaxSend=0)
+    # fragments name a version by their form: pieces in the other version's form must not be acted upon (Frag.tla)
+    frag_model(ctx, sender=False)
 
 
 def c11(ctx):
@@ -1091,7 +1101,7 @@ def c20(ctx):
         raise Broken("race build failed: " + p.stderr[-1500:])
     sched = os.path.join(ctx.work, "conc.sched")
     with open(sched, "w") as fo:
-        for fam, n, depth in (("life", 4, 40), ("errlife", 3, 40), ("smp", 6, 3), ("data", 3, 40), ("fragsweep", 2, 6)):
+        for fam, n, depth in (("life", 4, 40), ("errlife", 3, 40), ("smp", 10, 3), ("data", 3, 40), ("fragsweep", 2, 6)):
             n2 = n if q else n * 2
             tmp = os.path.join(ctx.work, "c-%s.sched" % fam)
             subprocess.run([vlib.BIN, "gen", "-family", fam, "-n", str(n2), "-depth", str(depth), "-seed", str(ctx.seed * 31 + len(fam)), "-out", tmp], check=True)
@@ -1120,8 +1130,8 @@ def c20(ctx):
     ctx.sched_of_trace[tf] = None
     if os.path.exists(tf) and os.path.getsize(tf) > 0:
         reports, lines = vlib.validate_traces([tf], ctx.kf)
-        ctx.traces_validated += stats.get("pairs", 0)
-        ctx.schedules += stats.get("pairs", 0)
+        ctx.traces_validated += stats.get("pairs", 0) + stats.get("lockstep", 0)
+        ctx.schedules += stats.get("pairs", 0) + stats.get("lockstep", 0)
         ctx.samples.append(dict(schedule=json.loads(open(sched).readline())))
         ctx.classify(reports)
     ctx.exhaustive = False
